@@ -250,6 +250,13 @@ impl Family for B5 {
         }
         if code == 0 && hard {
             out.violations.push(viol("C12", "hard_syscall_fault_swallowed", format!("{}: errno {:?} was injected but the tool exited 0", what, injected)));
+            if data_op && !stderr_faulted {
+                // C10 at process level: a failed read/write on the data path must surface as an error
+                out.violations.push(viol("C10", "cli_io_failure_not_reported", format!("{}: errno {:?} was injected on the data path but the tool exited 0", what, injected)));
+            }
+        }
+        if code == 0 && !completed && data_op && !stderr_faulted {
+            out.violations.push(viol("C10", "cli_result_depends_on_transfer_sizes", format!("{}: exit 0 with a wrong or incomplete result under {} short transfers and errnos {:?}", what, capped, injected)));
         }
         if code == 1 && !hard && !eintr {
             out.violations.push(viol("C12", "spurious_failure_under_short_transfers", format!("{}: no error was injected (only {} short transfers) but the tool failed: {}", what, capped, stderr.chars().take(200).collect::<String>())));
